@@ -100,6 +100,7 @@ for _refine in (True, False):
             assumes=["A4", "A5"],
             covers=["declined", "transformed"],
             chain=["C01", "C02"],
+            shards=1 if _nctx == 1 else 4,
         )(_tactic2(_nctx, V2, [["y"], ["x", "y"], ["y", "x"], ["x"]], _refine))
 
 
@@ -186,6 +187,7 @@ for _nctx in (1, 2):
         tier="quick" if _nctx == 1 else "thorough",
         chain=["C01", "C02"],
         weight=5,
+        shards=2 if _nctx == 1 else 16,
     )(_tactic4(_nctx, V3, [["y"], ["y", "z"]]))
 
 
@@ -274,6 +276,8 @@ for _refine in (True, False):
         assumes=["contracts of _tactic_1.._tactic_5"],
         covers=["all_declined", "tactic_result", "irrelevant"],
         chain=["C01", "C02"],
+        shards=4,
+        weight=4,
     )(_transform_term(_refine))
 
 
@@ -387,7 +391,8 @@ for _refine in (True, False):
                 covers=["return"],
                 chain=["C01", "C02"],
                 tier="quick" if (_n == 1 or not _simp) else "thorough",
-                weight=_n * _n * (3 if _simp else 1),
+                weight=_n * _n * (3 if _simp else 1) * 3,
+                shards=1 if _n == 1 else (8 if not _simp else 16),
             )(_transform(_n, _refine, _simp))
 
 
@@ -447,4 +452,5 @@ for _refine in (True, False):
                 chain=["C01", "C02"],
                 tier="quick" if _n == 1 else "thorough",
                 weight=_n * _n * (3 if _simp else 1),
+                shards=1 if _n == 1 else 16,
             )(_elim(_n, _refine, _simp))
